@@ -63,6 +63,8 @@ type Unit struct {
 	Atoms []string
 	// GV2Only: uses a feature protoc-gen-gogo 1.3.2 cannot generate (proto3 optional)
 	GV2Only bool
+	// NoGV2: cannot be generated for protoc-gen-go types (see Supported)
+	NoGV2 bool
 	// Group names the feature group (used to pick the race-build subset)
 	Group string
 	// SpecialNames to pass to the plug-in by default for this unit ("" = none)
